@@ -10,10 +10,13 @@
 (*   ops   v     operation documents up to sequence number v are stored    *)
 (*   snap  v     a snapshot document of version v was inserted             *)
 (*   udoc  v     the user-visible document was replaced, recording v       *)
+(*   end   v     the datatype document was written with log end v          *)
 (* What C11 says about these writes, whatever the server's locking is:     *)
 (*   a snapshot never captures more than what is stored; a version is      *)
 (*   stored once; the user-visible document records the version of a       *)
-(*   stored snapshot, and the recorded version never decreases.            *)
+(*   stored snapshot, and the recorded version never decreases; the        *)
+(*   recorded end of the log (C06) never exceeds what is stored and never  *)
+(*   goes back - whoever writes the datatype document.                     *)
 (* (That the CONTENT of every snapshot and of the document equals the      *)
 (* replay of the log prefix is checked by the harness on the same runs,    *)
 (* real against real.)  OrdaSnap's updater - lock, read, insert, replace - *)
@@ -22,25 +25,28 @@
 EXTENDS Integers, Sequences, FiniteSets, TLC, Json
 
 TheTrace == ndJsonDeserialize("trace.ndjson")
-VARIABLES stored, snaps, udoc, l
-vars == <<stored, snaps, udoc, l>>
+VARIABLES stored, snaps, udoc, end, l
+vars == <<stored, snaps, udoc, end, l>>
 Ev == TheTrace[l]
 Is(e) == l <= Len(TheTrace) /\ Ev.event = e
 Adv == l' = l + 1
 
 Ops == /\ Is("ops") /\ Adv
        /\ Ev.v = stored + Ev.n              \* sequence numbers continue without a gap
-       /\ stored' = Ev.v /\ UNCHANGED <<snaps, udoc>>
+       /\ stored' = Ev.v /\ UNCHANGED <<snaps, udoc, end>>
 Snap == /\ Is("snap") /\ Adv
         /\ Ev.v <= stored /\ Ev.v \notin snaps
-        /\ snaps' = snaps \cup {Ev.v} /\ UNCHANGED <<stored, udoc>>
+        /\ snaps' = snaps \cup {Ev.v} /\ UNCHANGED <<stored, udoc, end>>
 UDoc == /\ Is("udoc") /\ Adv
         /\ Ev.v \in snaps /\ Ev.v >= udoc
-        /\ udoc' = Ev.v /\ UNCHANGED <<stored, snaps>>
-Reset == /\ Is("reset") /\ Adv /\ stored' = 0 /\ snaps' = {} /\ udoc' = 0
+        /\ udoc' = Ev.v /\ UNCHANGED <<stored, snaps, end>>
+End == /\ Is("end") /\ Adv
+       /\ Ev.v <= stored /\ Ev.v >= end
+       /\ end' = Ev.v /\ UNCHANGED <<stored, snaps, udoc>>
+Reset == /\ Is("reset") /\ Adv /\ stored' = 0 /\ snaps' = {} /\ udoc' = 0 /\ end' = 0
 
-TraceInit == stored = 0 /\ snaps = {} /\ udoc = 0 /\ l = 1 /\ TLCSet(1, 0)
-TraceNext == Ops \/ Snap \/ UDoc \/ Reset
+TraceInit == stored = 0 /\ snaps = {} /\ udoc = 0 /\ end = 0 /\ l = 1 /\ TLCSet(1, 0)
+TraceNext == Ops \/ Snap \/ UDoc \/ End \/ Reset
 TraceSpec == TraceInit /\ [][TraceNext]_vars
 NotAccepted == l <= Len(TheTrace)
 Progress == IF l > TLCGet(1) THEN TLCSet(1, l) /\ PrintT(<<"HW", l>>) ELSE TRUE
